@@ -94,7 +94,7 @@ static out_t *ref;          /* [kind][i][cfg] */
 static size_t ref_idx(int kind, int i, int cfg) { return ((size_t)kind * MAXPOOL + (size_t)i) * 8 + (size_t)cfg; }
 
 #define MAXIV 4000
-typedef struct { long long s, e; int kind; } iv_t;
+typedef struct { long long s, e; int kind; int ov; } iv_t;
 typedef struct {
     int id, iters, perturb; unsigned seed;
     long calls, mismatches; int mm_kind, mm_i, mm_cfg; out_t mm_got;
@@ -222,11 +222,12 @@ int main(int argc, char **argv)
             b = 0;
             for (a = 0; a < ta[t].niv; a++) {
                 while (b < ta[u].niv && ta[u].iv[b].e < ta[t].iv[a].s) b++;
-                { int bb = b; while (bb < ta[u].niv && ta[u].iv[bb].s <= ta[t].iv[a].e) { overlap++; overlap_kinds[ta[t].iv[a].kind][ta[u].iv[bb].kind]++; bb++; } }
+                { int bb = b; while (bb < ta[u].niv && ta[u].iv[bb].s <= ta[t].iv[a].e) { overlap++; ta[t].iv[a].ov = 1; ta[u].iv[bb].ov = 1; overlap_kinds[ta[t].iv[a].kind][ta[u].iv[bb].kind]++; bb++; } }
             }
         }
     }
-    printf("{\"threads\":%d,\"calls\":%ld,\"mismatches\":%ld,\"overlapping_call_pairs\":%ld,\"pool\":%d", T, total, mism, overlap, npool);
+    { long ovc = 0, timed = 0; int a; for (t = 0; t < T; t++) { timed += ta[t].niv; for (a = 0; a < ta[t].niv; a++) ovc += ta[t].iv[a].ov; }
+      printf("{\"threads\":%d,\"calls\":%ld,\"mismatches\":%ld,\"overlapping_call_pairs\":%ld,\"calls_timed\":%ld,\"calls_overlapping_another_thread\":%ld,\"pool\":%d", T, total, mism, overlap, timed, ovc, npool); }
     { int dk = 0, a, b; for (a = 0; a < NKIND; a++) for (b = 0; b < NKIND; b++) if (overlap_kinds[a][b] || overlap_kinds[b][a]) dk++;
       printf(",\"distinct_overlapping_kind_pairs\":%d", dk); }
     for (t = 0; t < T; t++) if (ta[t].mismatches) {
